@@ -61,6 +61,9 @@ pub struct Tree {
     pub n_alpha: usize,
     /// smallest |margin| of any discrete decision taken inside (slice test, divergence, U-turn)
     pub margin: f64,
+    /// smallest margin of the decisions that determine whether the trajectory goes on (divergence
+    /// bound, U-turn tests) - the slice-admission tests and selection uniforms do not enter
+    pub margin_s: f64,
     pub diverged: bool,
     pub leaves: usize,
     /// queue underflow: the implementation drew fewer uniforms than Algorithm 6 needs
@@ -118,6 +121,7 @@ pub fn build_tree<R: RefTarget>(
             alpha,
             n_alpha: 1,
             margin: m1.min(m2),
+            margin_s: m2,
             diverged: !s,
             leaves: 1,
             starved: false,
@@ -154,9 +158,11 @@ pub fn build_tree<R: RefTarget>(
         a.n += b.n;
         let (ok, m) = uturn_ok(&a.xm, &a.xp, &a.rm, &a.rp);
         a.margin = a.margin.min(b.margin);
+        a.margin_s = a.margin_s.min(b.margin_s);
         if b.s {
             // the U-turn test only matters if both subtrees are still alive
             a.margin = a.margin.min(m);
+            a.margin_s = a.margin_s.min(m);
         }
         a.s = a.s && b.s && ok;
         a.alpha += b.alpha;
@@ -177,6 +183,9 @@ pub struct Transition {
     pub alpha: f64,
     pub n_alpha: usize,
     pub margin: f64,
+    pub margin_s: f64,
+    /// the recorded directions ran out while the trajectory had neither turned nor diverged
+    pub starved_top: bool,
     pub diverged: bool,
     pub leaves: usize,
     /// index (0 = start) identifying which proposal was adopted: number of adoptions
@@ -208,6 +217,8 @@ pub fn transition<R: RefTarget>(
     let (mut j, mut n, mut s) = (0usize, 1usize, true);
     let (mut alpha, mut n_alpha) = (0.0, 0usize);
     let mut margin = f64::INFINITY;
+    let mut margin_s = f64::INFINITY;
+    let mut starved_top = false;
     let mut diverged = false;
     let mut leaves = 0;
     let mut adoptions = 0;
@@ -218,6 +229,7 @@ pub fn transition<R: RefTarget>(
             Some(v) => v,
             None => {
                 starved = true;
+                starved_top = true;
                 break;
             }
         };
@@ -237,6 +249,7 @@ pub fn transition<R: RefTarget>(
         alpha = tr.alpha;
         n_alpha = tr.n_alpha;
         margin = margin.min(tr.margin);
+        margin_s = margin_s.min(tr.margin_s);
         diverged = diverged || tr.diverged;
         leaves += tr.leaves;
         starved = starved || tr.starved;
@@ -263,6 +276,7 @@ pub fn transition<R: RefTarget>(
         let (ok, m) = uturn_ok(&xm, &xp, &rm, &rp);
         if tr.s {
             margin = margin.min(m);
+            margin_s = margin_s.min(m);
         }
         s = tr.s && ok;
         j += 1;
@@ -274,6 +288,8 @@ pub fn transition<R: RefTarget>(
         alpha,
         n_alpha,
         margin,
+        margin_s,
+        starved_top,
         diverged,
         leaves,
         adoptions,
